@@ -45,6 +45,13 @@ def hand_scenarios():
     out.append(("html", "R/a.txt", {"R/a.txt": F([T("A"), M("empty.txt"), T("B "), M("one.txt"), T(" "), M("nl.txt"), T("C "), M("mid.txt"), T("\n")]), "R/empty.txt": F([]), "R/one.txt": F([T("x")]),
                                     "R/nl.txt": F([T("\n")]), "R/mid.txt": F([M("empty.txt"), M("empty.txt"), T("m"), M("one.txt")])}))
     out.append(("latex", "R/a.txt", {"R/a.txt": F([M("e.*"), T("|"), M("e.*"), T("\n")]), "R/e.tex": F([])}))
+    # base overrides that start with a dot but are not ".": resolved by the file system relative to the including file's folder
+    for b in ("./sub", "../R/sub", "sub/../sub", "./", "."):
+        out.append(("html", "R/a.txt", {"R/a.txt": F([T("A "), M("b.txt"), T(" end\n")], True, b), "R/sub/b.txt": F([T("Bsub "), M("c.txt")]), "R/b.txt": F([T("Btop "), M("c.txt")]), "R/sub/c.txt": F([T("Csub")]), "R/c.txt": F([T("Ctop")])}))
+    out.append(("html", "R/doc/a.txt", {"R/doc/a.txt": F([T("A "), M("x.txt"), T(" end\n")], True, "../shared"), "R/shared/x.txt": F([T("SHARED")]), "R/doc/x.txt": F([T("DECOY")])}))
+    # metadata with an un-indented continuation line before further keys (the base override among them)
+    out.append(("html", "R/a.txt", {"R/a.txt": F([T("A "), M("m.txt"), T(" end\n")]), "R/m.txt": dict(F([T("M "), M("leaf.txt"), T("\n")], True, "sub"), cont=1), "R/sub/leaf.txt": F([T("LEAFSUB")]), "R/leaf.txt": F([T("LEAFTOP")])}))
+    out.append(("latex", "R/a.txt", {"R/a.txt": F([T("A "), M("m.txt"), T(" end\n")]), "R/m.txt": dict(F([T("M body\n")], True), cont=1)}))
     # included files with a large metadata block (its size must not matter): the base override comes after a long value
     for pad in (200, 3000, 4090, 5000, 9000):
         out.append(("html", "R/a.txt", {"R/a.txt": F([T("A "), M("big.txt"), T(" end\n")]), "R/big.txt": dict(F([T("B "), M("leaf.txt"), T("\n")], True, "sub"), pad=pad), "R/sub/leaf.txt": F([T("LEAFSUB")]), "R/leaf.txt": F([T("LEAFTOP")])}))
@@ -56,7 +63,7 @@ def hand_scenarios():
 def files_of(fs):
     out = {}
     for p, f in fs.items():
-        meta = ("Title: t\n" + ("Abstract: %s\n" % ("x" * f["pad"]) if "pad" in f else "") + ("Transclude Base: %s\n" % f["base"] if f["base"] else "") + "\n") if f["meta"] else ""
+        meta = ("Title: t\n" + ("Author: Jane\nDoe and others\nDate: 2020\n" if "cont" in f else "") + ("Abstract: %s\n" % ("x" * f["pad"]) if "pad" in f else "") + ("Transclude Base: %s\n" % f["base"] if f["base"] else "") + "\n") if f["meta"] else ""
         out[p] = meta + "".join(("{{%s}}" % a["s"]) if a["k"] == "m" else a["s"] for a in f["atoms"])
     return out
 
@@ -116,7 +123,7 @@ def run(tier, seed):
         def fixfs(fs, d):
             # the abstract file system as the spec sees it: symbolic root, absolute markers spelled with the real directory
             def ms(s): return (d + s) if s.startswith("/R/") else s.replace("@ABS@", d)
-            return {p.lstrip("/"): dict(atoms=[dict(k=a["k"], s=ms(a["s"]) if a["k"] == "m" else a["s"]) for a in f["atoms"]], meta=f["meta"], base=f["base"], **({"pad": f["pad"]} if "pad" in f else {})) for p, f in fs.items()}
+            return {p.lstrip("/"): dict(atoms=[dict(k=a["k"], s=ms(a["s"]) if a["k"] == "m" else a["s"]) for a in f["atoms"]], meta=f["meta"], base=f["base"], **({"pad": f["pad"]} if "pad" in f else {}), **({"cont": f["cont"]} if "cont" in f else {})) for p, f in fs.items()}
         for (i, fmt, root, fs, d), seg, r in zip(cases, segs, res):
             trace.append(dict(e="reset"))
             fs_abs = {(os.path.join(d, p)): v for p, v in fixfs(fs, d).items()}
